@@ -6,6 +6,7 @@ UNITS = ["all protocol files of C04-C09", "src/core/msgqueue.c (raw sockets)", "
 RULE = "Protocol skeletons containing non-blocking operations; at each such (quiescent) point the poll state read before the call decides the expected result; the pollable/readiness equivalences are asserted after every event."
 BOUNDS = "those of the skeleton families"
 OUTSIDE = "the eventfd/pipe byte (p_raised is the observable); nng.c's ETIMEDOUT->EAGAIN mapping is a one-line conversion not encoded"
+GROUP_WITNESS = False
 ASSUMPTIONS = ["as in C04-C09"]
 
 
